@@ -15,11 +15,13 @@ Rec == ndJsonDeserialize(IOEnv.TRACE)
 C == INSTANCE AbsConn
 Q == INSTANCE AbsQueue
 P == INSTANCE AbsPool
+R == INSTANCE AbsRes
 
 VARIABLES l, sc, st, nviol
 vars == <<l, sc, st, nviol>>
 
-NoScenario == [prop |-> "", drv |-> "", napps |-> 0, single |-> FALSE, conns |-> <<>>, reclaim |-> <<>>]
+NoScenario == [prop |-> "", drv |-> "", napps |-> 0, single |-> FALSE, conns |-> <<>>, reclaim |-> <<>>, transport |-> "mem",
+               resonly |-> FALSE]
 
 Init == l = 1 /\ sc = NoScenario /\ st = [c |-> C!CInit(NoScenario), q |-> Q!QInit(NoScenario), p |-> P!PInit(NoScenario)] /\ nviol = 0
 
@@ -31,7 +33,10 @@ Next ==
     /\ LET e == Rec[l] IN
        IF e.ev = "Scenario"
        THEN LET nsc == [prop |-> e.prop, drv |-> e.drv, napps |-> e.j.napps, single |-> e.j.single,
-                        conns |-> e.j.conns, reclaim |-> e.j.reclaim] IN
+                        conns |-> e.j.conns, reclaim |-> e.j.reclaim, transport |-> e.j.transport,
+                        \* resonly: the scenario's messages are deliberately not described (adversarial
+                        \* byte soup); only the resource judge (AbsRes) applies
+                        resonly |-> e.j.resonly] IN
             /\ sc' = nsc
             /\ st' = [c |-> C!CInit(nsc), q |-> Q!QInit(nsc), p |-> P!PInit(nsc)]
             /\ nviol' = nviol
@@ -39,7 +44,7 @@ Next ==
                 rc == C!CStep(st.c, sc, e, rb, st.p.dropped)
                 rq == Q!QStep(st.q, sc, e)
                 rp == P!PStep(st.p, sc, e, st.c)
-                vs == rc.v \o rq.v \o rp.v
+                vs == IF sc.resonly THEN R!RStep(e, st.c) ELSE rc.v \o rq.v \o rp.v \o R!RStep(e, st.c)
             IN /\ st' = [c |-> rc.s, q |-> rq.s, p |-> rp.s]
                /\ sc' = sc
                /\ Report(e, vs)
